@@ -20,7 +20,7 @@ Legal(o) ==
 \* the option lattice (what a run may be given); used to validate that the driver's vectors are in it
 Threads == 1..64
 Option(v) == /\ v.t \in Threads /\ v.f \in Nat /\ v.p \in BOOLEAN /\ v.g \in BOOLEAN /\ v.m \in BOOLEAN
-             /\ v.d \in {"arrays", "gnu-ld"} /\ v.c \in BOOLEAN
+             /\ v.d \in {"arrays", "gnu-ld", "sectcreate1", "sectcreate2"} /\ v.c \in BOOLEAN
 
 VARIABLE k
 Init == k = 0 /\ TLCSet(1, <<>>)
